@@ -1,4 +1,5 @@
 import CacheProofs.Props.C03
+import CacheModel.Construct
 
 /-
   C06 — TTL and context travel through Failover as documented.
@@ -81,20 +82,19 @@ theorem C06_failure_ttl_reset (c : FCfg) (s s' : FState) (t : Nat) (E : Time) (e
   cases h
   cases hv : c.variant <;> simp [FState.req, FState.setTh, FCfg.errsWriteResetsTTL, hv, Gen.errsWriteResetsTTL, Gen.errsWriteResetsTTLOf]
 
-/-- What a context exposes to a builder. -/
-structure CtxView where
-  cancellable : Bool            -- Done() != nil
-  err : Option Err              -- Err()
-  deadline : Option Time
-  value : Nat → Option Nat      -- Value(key)
-
-/-- `detachedContext{parent}` as written in context.go: constant answers, values forwarded. -/
-def detach (p : CtxView) : CtxView := { cancellable := false, err := none, deadline := none, value := p.value }
-
 /-- A detached context is never cancelled or deadlined, whatever happens to its parent, and still exposes its values. -/
 theorem C06_detached_context (p : CtxView) :
-    (detach p).cancellable = false ∧ (detach p).err = none ∧ (detach p).deadline = none ∧ (detach p).value = p.value :=
-  ⟨rfl, rfl, rfl, rfl⟩
+    (detach p).cancellable = false ∧ (detach p).err = none ∧ (detach p).deadline = none ∧ (detach p).value = p.value := by
+  simp [detach, Gen.detachedNeverDone, Gen.detachedNoErr, Gen.detachedNoDeadline, Gen.detachedForwardsValues]
+
+/-- The context a background build runs under (both frontends): not cancellable, no error, no deadline - whatever the caller's
+    context carries or later becomes - and the caller's values. -/
+theorem C06_bg_build_context (v : Variant) (caller : CtxView) :
+    (bgBuildCtx v caller).cancellable = false ∧ (bgBuildCtx v caller).err = none ∧
+    (bgBuildCtx v caller).deadline = none ∧ (bgBuildCtx v caller).value = caller.value := by
+  have h : bgBuildCtx v caller = detach caller := by
+    cases v <;> simp [bgBuildCtx, ctxSyncDetaches, Gen.ctxSyncDetaches, Gen.ctxSyncDetachesOf]
+  rw [h]; exact C06_detached_context caller
 
 /-- The builder runs under the detached context exactly when the Get has already returned (background update); a
     synchronous build gets the caller's own context. -/
